@@ -2,6 +2,7 @@ package main
 
 import (
 	"crypto/ed25519"
+	"fmt"
 	"net/netip"
 	"time"
 
@@ -15,9 +16,9 @@ import (
 
 // pingSpec describes a signed ping frame to craft (message format of router/ping.go).
 type pingSpec struct {
-	from     *m.Address     // signer (its private key signs raw)
-	src      netip.Addr     // frame source (defaults to from.IP)
-	dst      netip.Addr     // frame destination
+	from     *m.Address // signer (its private key signs raw)
+	src      netip.Addr // frame source (defaults to from.IP)
+	dst      netip.Addr // frame destination
 	msgType  frame.MessageType
 	pingType string
 	pingCode uint8
@@ -84,7 +85,10 @@ func craftPing(s pingSpec) ([]byte, error) {
 		ttl = 32
 	}
 	f.SetTTL(ttl)
-	d, _ := f.FrameDataWithMargins(0, 0)
+	d, err := f.FrameDataWithMargins(0, 0)
+	if err != nil {
+		return nil, fmt.Errorf("frame data of a frame that was just built: %w", err)
+	}
 	return append([]byte(nil), d...), nil
 }
 
